@@ -172,6 +172,33 @@ def gen_cases(ctx, n, seeds):
             if rng.random() < 0.3:
                 b = mutate(rng, b)
             cases.append(("fuzz", "fuzz zapi%d %s" % (v, hx(b)), b))
+    # structured ZAPI interface messages (INTERFACE_ADD / DELETE / UP / DOWN share one body decoder) reaching the link parameters:
+    # name, index, status, flags, [ptm], metric, [speed], mtu, mtu6, bandwidth, [link ifindex], link type, hardware address,
+    # link-params octet, four words, the NUMBER of unreserved-bandwidth classes (the decoder holds 8) and that many words,
+    # then the fixed tail -- every length field consistent, under every command number a version may map to the decoder
+    for v in (3, 4, 5, 6):
+        hs = {3: 8, 4: 8, 5: 10, 6: 10}[v]
+        for namesize in (20, 16):
+            for linkidx in ((0, 1) if v == 6 else (0,)):
+                for ncls in (0, 1, 7, 8, 9, 16, 255):
+                    for hwlen in (0, 6):
+                        body = b"eth0".ljust(namesize, b"\0") + struct.pack(">IB", 1, 1) + struct.pack(">Q", 1)
+                        if v > 3:
+                            body += bytes([0, 0])
+                        body += struct.pack(">I", 1)
+                        if v > 3:
+                            body += struct.pack(">I", 10000)
+                        body += struct.pack(">III", 1500, 1500, 200)
+                        if linkidx:
+                            body += struct.pack(">I", 1)
+                        body += struct.pack(">II", 1, hwlen) + bytes(range(hwlen)) + b"\x01" + struct.pack(">IIIII", 0, 10, 0, 0, ncls)
+                        body += b"".join(struct.pack(">I", i) for i in range(ncls)) + bytes(48)
+                        for cmd in range(0, 26):
+                            if v == 3 or v == 4:
+                                hdr = struct.pack(">HBBHH", hs + len(body), 254 if v == 4 else 255, v, 0, cmd)
+                            else:
+                                hdr = struct.pack(">HBBIH", hs + len(body), 254, v, 0, cmd)
+                            cases.append(("fuzz", "fuzz zapi%d %s" % (v, hx(hdr + body)), hdr + body))
     return cases
 
 
